@@ -446,4 +446,20 @@ def sig_matlab(m_path: str) -> Tuple[Optional[dict], List[str]]:
             cur = cur[p]
         if ok and path:
             cur[path[-1]] = val
+    # the generated trailing loop:  names = fieldnames(RTMA.X); for ... n = names{idx}; ... RTMA.Y.(n) ...
+    text = open(m_path).read()
+    for var, src in re.findall(r"^\s*(\w+)\s*=\s*fieldnames\(RTMA\.(\w+)\)\s*;", text, re.M):
+        m = re.search(r"for\s+\w+\s*=.*?\n(.*?)\nend", text[text.index(f"{var} = fieldnames"):], re.S)
+        if not m:
+            continue
+        body = m.group(1)
+        el = re.search(r"(\w+)\s*=\s*%s\{\w+\}" % var, body)
+        if not el:
+            continue
+        names = list((env.get(src) or {}).keys()) if isinstance(env.get(src), dict) else []
+        for tgt in sorted(set(re.findall(r"=\s*RTMA\.(\w+)\.\(%s\)" % el.group(1), body))):
+            have = env.get(tgt) if isinstance(env.get(tgt), dict) else {}
+            for n in names:
+                if n not in have:
+                    problems.append(f"loop over fieldnames(RTMA.{src}) reads RTMA.{tgt}.{n} which is never defined")
     return env, problems
